@@ -9,6 +9,7 @@ was given (name, value, omission of None, VLSIR primitive name, pulse-source ren
 
 from __future__ import annotations
 
+import itertools
 import math
 import struct
 from decimal import Decimal
@@ -385,9 +386,62 @@ def direct_converters(rec, rng, n):
                 pass
 
 
+_uid = itertools.count(1)
+
+
+def history_probes(rec):
+    """Parameter values under histories and contradicting forms: a dict that is edited between two calls, typed constructors given
+    another type, huge exponents (the export must return)."""
+    import hdl21 as h
+    from hdl21.primitives import MosType, BipolarType
+    from .. import pkgread
+
+    L = lib()
+
+    def exported(call):
+        m = h.Module(name=f"Pr{next(_uid)}")
+        conns = {p: m.add(h.Signal(width=port.width), name=f"n_{p}") for p, port in call.ports.items()}
+        m.add(h.Instance(of=call)(**conns), name="x")
+        pkg = h.to_proto(m)
+        return {p.name: pkgread.decode_param(p.value) for p in pkg.modules[-1].instances[0].parameters}
+
+    # (1) one dict object, edited between two calls
+    rec.count("probe.dict-history")
+    d = {"w": 1, "k": "a"}
+    c1 = L["Edict"](d)
+    d["w"] = 2
+    d["k"] = "b"
+    c2 = L["Edict"](d)
+    e1, e2 = exported(c1), exported(c2)
+    if e1.get("w") != 1 or e2.get("w") != 2:
+        rec.violation("param-value-wrong", f"one dict handed to two calls and edited in between: the first instance exports w={e1.get('w')!r} (given 1), "
+                                           f"the second w={e2.get('w')!r} (given 2)", case={"kind": "probe", "what": "dict-history"})
+    # (2) typed constructors given a contradicting type
+    for ctor, bad, want in ((h.Nmos, MosType.PMOS, "NMOS"), (h.Pmos, MosType.NMOS, "PMOS"), (h.Npn, BipolarType.PNP, "NPN"), (h.Pnp, BipolarType.NPN, "PNP")):
+        rec.count("probe.typed-constructor")
+        try:
+            call = ctor(tp=bad)
+        except Exception:
+            continue  # refused: fine
+        got = exported(call).get("tp")
+        if not (isinstance(got, tuple) and got[-1] == bad.value) and got != bad.value:
+            rec.violation("param-value-wrong", f"{ctor.__name__}(tp={bad}) was accepted and exports tp={got!r}: the given value is {bad.value!r}",
+                          case={"kind": "probe", "what": "typed-constructor"})
+    # (3) huge exponents: export returns (a step budget, not a clock: the digits of the exported string stay short)
+    rec.count("probe.huge-exponent")
+    from decimal import Decimal
+
+    for text in ("1E+200000", "-3E+150000", "1E-300000"):
+        got = exported(h.R(r=h.Prefixed(number=Decimal(text)))).get("r")
+        if not (isinstance(got, tuple) and got[0] == "pref"):
+            rec.violation("param-value-wrong", f"R(r={text}) exported as {str(got)[:60]!r}", case={"kind": "probe", "what": "huge-exponent"})
+
+
 def run(ctx, rec):
     parammon.attach(rec)
     rng = ctx.rng("c13")
+    if ctx.shard == 0:
+        history_probes(rec)
     L = lib()
     n = 900 if ctx.quick else 16000
     for k in range(n):
